@@ -82,7 +82,7 @@ def _policy(policy, contract):
 
 class _Study(Contract):
   prop = 'C16'
-  inline = (f'{LB}:_InMemoryResult.next_trial_id',)
+  inline = (f'{LB}:_InMemoryResult.next_trial_id', f'{LB}:_InMemoryResult._create_trial')
 
   def setup_policy(self, policy):
     _policy(policy, self)
@@ -170,6 +170,116 @@ class CreateTrial(_Study):
 
 
 @register
+class GetOrCreateTrial(_Study):
+  """get_or_create_trial: the decision "the group's latest trial is still
+  pending -> hand it out again, otherwise create the next one" and the
+  creation itself happen in ONE critical section, so two workers of a group
+  can never be given two different new trials for the same vacancy."""
+  target = f'{LB}:_InMemoryResult.get_or_create_trial'
+  exc_class_budget_exhausted = StopIteration
+
+  def inputs(self, b):
+    s = self.study(b)
+    latest = b.choice('latest_kind', [None, absobj.ref(protocols.Trial, b.int('latest').z, _trial_lazy)])
+    self._latest = latest
+    self._latest_pending = b.bool('latest_pending')
+    s.fields['_latest_trial_per_group'] = SObj(LatestMap, {}, name='latest_per_group')
+    return dict(self=s, dna_fn=b.any('dna_fn'), group_id=b.any('group_id')), {}
+
+  def setup_policy(self, policy):
+    super().setup_policy(policy)
+    me = self
+
+    def getattr_h(interp, obj, name, frame):
+      if isinstance(obj, SObj) and obj.cls is LatestMap and name == 'get':
+        return I.NativeFn(lambda ip, a, k: me._latest)
+      if isinstance(obj, SObj) and obj.cls is LatestMap and name == '__setitem__':
+        return I.NativeFn(lambda ip, a, k: ip.path.event('latest-set', 'group', a))
+      if isinstance(obj, SObj) and obj.cls is protocols.Trial and 'id' in obj.ghost:
+        if name == 'status':
+          return 'PENDING' if ip_truth(interp, me._latest_pending) else 'COMPLETED'
+        if name in ('id', 'infeasible', 'final_measurement'):
+          return _trial_lazy(obj, name)
+      return NotImplemented
+    policy.handlers[('getattr', SObj)] = getattr_h
+
+    from pyvc import axioms as ax
+    orig_setitem = ax.setitem
+
+  def old(self, self_):
+    return dict(n=len(self_._trials))
+
+  @direct
+  def exc_iff_budget_exhausted(self, interp, env):
+    s = env['self_']
+    latest = interp.resolve(self._latest)
+    need_new = z3.BoolVal(True) if latest is None else z3.Not(self._latest_pending.z)
+    mx = interp.resolve(s.fields['_max_num_trials'])
+    n = interp.resolve(s.fields['_trials']).len
+    if mx is None:
+      return z3.BoolVal(False)
+    return z3.And(need_new, n + 1 > interp.to_z3(mx))
+
+  @direct
+  def ensures_pending_trial_is_shared_else_one_new_trial(self, interp, env):
+    s = env['self_']
+    latest = interp.resolve(self._latest)
+    res = interp.resolve(env['result'])
+    n0 = interp.to_z3(env['old']['n'])
+    n1 = interp.resolve(s.fields['_trials']).len
+    if latest is not None:
+      shared = z3.And(absobj.ref_id(res) == absobj.ref_id(latest), n1 == n0)
+      created = z3.And(n1 == n0 + 1, TID(absobj.ref_id(res)) == n0 + 1)
+      return z3.If(self._latest_pending.z, shared, created)
+    return z3.And(n1 == n0 + 1, TID(absobj.ref_id(res)) == n0 + 1)
+
+
+def ip_truth(interp, b):
+  return interp.path.branch(b.z)
+
+
+class LatestMap:
+  """Stands for the group -> latest trial dict (lookup result is symbolic)."""
+
+
+@register
+class MarkCompleted(Contract):
+  """_mark_completed: the PENDING -> COMPLETED transition is a test-and-set
+  inside the study lock: it returns True exactly when the trial was pending,
+  and then (only then) flips the status -- so of two workers finishing the
+  same trial exactly one reports it."""
+  prop = 'C16'
+  target = f'{LB}:_InMemoryResult._mark_completed'
+
+  def inputs(self, b):
+    self._pending = b.bool('pending')
+    s = SObj(lb._InMemoryResult, {'_lock': SObj(LockModel, {}, name='lock')}, name='self')
+    t = SObj(protocols.Trial, {'status': b.choice('status', ['PENDING', 'COMPLETED'])}, name='trial')
+    t.ghost['raw_setattr'] = True
+    return dict(self=s, trial=t), {}
+
+  def setup_policy(self, policy):
+    _policy(policy, self)
+    policy.handlers.pop(('getattr', SObj), None)
+
+    def field_access(interp, obj, name, mode):
+      if obj.cls is protocols.Trial and name == 'status':
+        interp.path.event('field', name, (mode, len(interp.path.held)))
+    policy.handlers[('field_access',)] = field_access
+
+  def old(self, trial):
+    return dict(status=trial.status)
+
+  def ensures_test_and_set(self, trial, result, old):
+    return (result == (old['status'] == 'PENDING')) and trial.status == 'COMPLETED' \
+        if old['status'] == 'PENDING' else (result is False and trial.status == old['status'])
+
+  def trace_status_read_and_written_under_the_lock(self, events, outcome, interp, env):
+    acc = [e for e in events if e.kind == 'field']
+    return len(acc) >= 1 and all(e.data[1] > 0 for e in acc)
+
+
+@register
 class CompleteTrial(_Study):
   """_complete_trial: PENDING -> COMPLETED bookkeeping and best-trial update in
   one critical section; an infeasible trial never becomes best; the best trial
@@ -225,7 +335,7 @@ class GuardedWritesSurface(Contract):
     import ast, inspect, textwrap
     src = textwrap.dedent(inspect.getsource(lb._InMemoryResult))
     cls = ast.parse(src).body[0]
-    contracted = {'create_trial', '_complete_trial', '__init__'}
+    contracted = {'create_trial', 'get_or_create_trial', '_create_trial', '_complete_trial', '__init__'}
     mutators = ('append', 'extend', 'insert', 'pop', 'remove', 'clear', 'update', 'setdefault', 'popitem', 'sort')
     out = []
     for fn in cls.body:
